@@ -82,11 +82,15 @@ func (scp *Isolated) Stop() {
 
 // Err return cumulative error if the scope context contains any error
 func (scp *Isolated) Err() error {
-	return goaterr.ToError(scp.errors)
+	return goaterr.ToError(scp.Errors())
 }
 
 // Errors return scope errors
 func (scp *Isolated) Errors() []error {
+	// read under the lock of AppendError: an unsynchronised read can pair the new
+	// length of the list with its old (nil) array
+	scp.errorsMU.Lock()
+	defer scp.errorsMU.Unlock()
 	return scp.errors
 }
 
